@@ -1100,6 +1100,18 @@ func (c *specCtx) call(n *SCall) (Val, types.Type) {
 		}
 		row := tb.Select(c.H("E:uint8", SArr2I), v.T[0])
 		return scalar(tb.App("bytestok", SInt, row, v.T[1], v.T[2])), untypedInt
+	case "auxBytes":
+		// auxBytes(b): the 256-byte array value whose elements are the bytes of b
+		v, T := arg(0)
+		if sl, ok := T.Underlying().(*types.Slice); ok {
+			v = c.e.materialiseIfSlice(c.st, v, sl)
+		}
+		if len(v.T) != 4 {
+			c.fail("auxBytes needs a byte slice")
+		}
+		at := types.NewArray(types.Typ[types.Uint8], 256)
+		row := tb.Select(c.H("E:uint8", SArr2I), v.T[0])
+		return scalar(tb.App("packr_"+typeKey(at), SInt, row, v.T[1], tb.Int(256))), at
 	case "idBytes":
 		// idBytes(b): the 32-byte array value whose elements are the bytes of b (what copying b into a [32]byte yields)
 		v, T := arg(0)
@@ -1111,7 +1123,7 @@ func (c *specCtx) call(n *SCall) (Val, types.Type) {
 		}
 		at := types.NewArray(types.Typ[types.Uint8], 32)
 		row := tb.Select(c.H("E:uint8", SArr2I), v.T[0])
-		return scalar(tb.App("pack_"+typeKey(at), SInt, row, v.T[1], tb.Int(32))), at
+		return scalar(tb.App("packr_"+typeKey(at), SInt, row, v.T[1], tb.Int(32))), at
 	case "bigOf":
 		// bigOf(b): the non-negative integer whose big-endian bytes are the byte slice b (what SetBytes(b) yields)
 		v, T := arg(0)
